@@ -155,6 +155,10 @@ type Interp struct {
 	pathViol []*Violation
 	fmtLazy  bool
 	divN     int
+	decided  map[*T]bool
+	curModel map[string]uint64
+	pendingModel map[string]uint64
+	pendingFor *T
 	portfolio map[string]int
 	initStored map[*ssa.Global]bool
 
@@ -194,9 +198,20 @@ func (in *Interp) assume(t *T) {
 	}
 	in.sol.Assert(t)
 	in.pc = append(in.pc, t)
+	// keep a model of the path condition when one is at hand
+	if in.curModel != nil {
+		bad := false
+		v := Eval(t, in.curModel, map[*T]uint64{}, func(string, []uint64) uint64 { bad = true; return 0 })
+		if bad || v != 1 {
+			in.curModel = nil
+		}
+	}
+	in.pendingModel, in.pendingFor = nil, nil
 }
 
 // branch decides a symbolic condition, forking the path if both outcomes are feasible.
+// Two economies: (1) a condition already decided on this path is not asked again; (2) the model of the
+// last satisfiable query tells which side is certainly feasible, so only the other side is queried.
 func (in *Interp) branch(c *T) bool {
 	if c.IsConst() {
 		return c.k == 1
@@ -207,6 +222,9 @@ func (in *Interp) branch(c *T) bool {
 	if in.speculating {
 		panic(specAbort{"branch"})
 	}
+	if v, ok := in.decided[c]; ok {
+		return v
+	}
 	in.branches++
 	if in.pos < len(in.prefix) {
 		d := in.prefix[in.pos]
@@ -215,34 +233,54 @@ func (in *Interp) branch(c *T) bool {
 		switch d {
 		case dTrue:
 			in.assume(c)
+			in.remember(c, true)
 			return true
 		case dFalse:
 			in.assume(in.tb.Not(c))
+			in.remember(c, false)
 			return false
 		case dForcedTrue:
+			in.remember(c, true)
 			return true
 		case dForcedFalse:
+			in.remember(c, false)
 			return false
 		}
 		panic(fmt.Sprintf("prefix mismatch: decision %d at a binary branch (nondeterministic re-execution?)", d))
 	}
 	in.pos++
-	rT := in.sol.CheckWith(c)
-	if rT == "error" {
+	solverErr := func() {
 		panic(pathStop{"inconclusive", "solver error: " + strings.Join(in.sol.Errors, "; ")})
+	}
+	// which side does the current model (if any) witness?
+	known, side := in.modelSide(c)
+	var rT, rF string
+	if known && side {
+		rT = "sat"
+	} else {
+		rT = in.checkSide(c)
+	}
+	if rT == "error" {
+		solverErr()
 	}
 	if rT == "unsat" {
 		in.trace = append(in.trace, dForcedFalse)
 		in.prefix = append(in.prefix, dForcedFalse)
+		in.remember(c, false)
 		return false
 	}
-	rF := in.sol.CheckWith(in.tb.Not(c))
+	if known && !side {
+		rF = "sat"
+	} else {
+		rF = in.checkSide(in.tb.Not(c))
+	}
 	if rF == "error" {
-		panic(pathStop{"inconclusive", "solver error: " + strings.Join(in.sol.Errors, "; ")})
+		solverErr()
 	}
 	if rF == "unsat" {
 		in.trace = append(in.trace, dForcedTrue)
 		in.prefix = append(in.prefix, dForcedTrue)
+		in.remember(c, true)
 		return true
 	}
 	// both feasible (or unknown: keep both, an over-approximation of feasibility)
@@ -251,7 +289,40 @@ func (in *Interp) branch(c *T) bool {
 	in.trace = append(in.trace, dTrue)
 	in.prefix = append(in.prefix, dTrue)
 	in.assume(c)
+	in.remember(c, true)
 	return true
+}
+
+func (in *Interp) remember(c *T, v bool) {
+	in.decided[c] = v
+	in.decided[in.tb.Not(c)] = !v
+}
+
+// modelSide evaluates c under the model of the last satisfiable query of this path, if it is still valid.
+func (in *Interp) modelSide(c *T) (known bool, side bool) {
+	if in.curModel == nil {
+		return false, false
+	}
+	bad := false
+	v := Eval(c, in.curModel, map[*T]uint64{}, func(string, []uint64) uint64 { bad = true; return 0 })
+	if bad {
+		return false, false
+	}
+	return true, v == 1
+}
+
+// checkSide asks the solver whether pc ∧ t is satisfiable; a model is kept when it is and t is then assumed.
+func (in *Interp) checkSide(t *T) string {
+	in.sol.emit(t)
+	in.sol.Push()
+	in.sol.Assert(t)
+	r := in.sol.Check()
+	if r == "sat" {
+		// a model of pc ∧ t is in particular a model of pc
+		in.curModel = in.sol.Model(in.vars)
+	}
+	in.sol.Pop()
+	return r
 }
 
 // branchTrue is branch() for conditions that are expected to hold (bounds, nil, zero checks):
@@ -386,6 +457,14 @@ func (in *Interp) violation(tag, msg string, m map[string]uint64) {
 
 // vc discharges a verification condition on the current path.
 func (in *Interp) vc(cond *T, tag, msg string) {
+	if in.pos < len(in.prefix) {
+		// still replaying the decisions of the parent path: this very VC was discharged there under the
+		// same path condition
+		if strings.Contains(tag, "@known:") {
+			in.assume(cond)
+		}
+		return
+	}
 	in.vcs++
 	if cond.IsConst() {
 		if cond.k == 1 {
@@ -428,6 +507,9 @@ func (in *Interp) vc(cond *T, tag, msg string) {
 	switch r {
 	case "unsat":
 		in.vcsUnsat++
+		if strings.Contains(tag, "@known:") {
+			in.assume(cond) // keeps the path condition identical in replays of this prefix
+		}
 		if len(in.samples) < 6 {
 			n := 80
 			in.samples = append(in.samples, fmt.Sprintf("VC %s/%s: pc(%d conjuncts) ⇒ %s : unsat(negation)", in.harness, tag, len(in.pc), Pretty(cond, &n)))
@@ -439,6 +521,7 @@ func (in *Interp) vc(cond *T, tag, msg string) {
 		if in.sol.Check() == "unsat" {
 			panic(pathStop{"assume", "after known finding"})
 		}
+		return
 	default:
 		if os.Getenv("GSE_DUMPVC") != "" {
 			n := 600
